@@ -23,6 +23,7 @@ impl ChiSquared {
     }
     pub fn set_dof(&mut self, dof: usize) -> &mut Self {
         assert!(dof > 0, "Degrees of freedom must be positive.");
+        self.sampler = Gamma::new((dof as f64) / 2., 0.5);
         self.dof = dof;
         self
     }
